@@ -26,7 +26,7 @@ REGISTER = True
 TECHNIQUE = ('Hypothesis property-based testing of the plotting functions under the Agg backend: the Line2D data, masks and patches of the '
              'produced axes are read back and compared with the cycle table (marker positions and kinds, completeness inside the view, '
              'highlighted burst samples, per-cycle parameter values and threshold lines)')
-LEVEL_TEXT = ('Generated-input search: 500 figures (quick), 12k (thorough) over tables of both centrings and both burst methods from '
+LEVEL_TEXT = ('Generated-input search: 640 figures (quick), 12k (thorough) over tables of both centrings and both burst methods from '
               'generated signals, fs including values for which k/fs*fs != k, x-limits None or on the sample grid (random windows, windows '
               'without a complete cycle, windows starting / ending exactly on a cycle boundary), plot_only_result, interp and the cyclepoint '
               'switches. Any exception for a valid table / window is a violation. Sampling, not exhaustive.')
@@ -289,7 +289,7 @@ def check(case, rec):
                     # threshold tuning: re-label the SAME table object in place (documented behaviour of detect_bursts_cycles)
                     # and draw it again with the same window - the picture must follow the new labels
                     from bycycle.burst import detect_bursts_cycles
-                    th2 = {k: (min(1.0, v + 0.25) if k == 'monotonicity_threshold' else v) for k, v in th_plot.items()}
+                    th2 = {k: ([min(1.0, v + 0.25), 1.0][case.get('probe', 0) % 2] if k == 'monotonicity_threshold' else v) for k, v in th_plot.items()}
                     plt.close('all')
                     guarded(detect_bursts_cycles, df, **th2)
                     keep = df.copy(deep=True)
@@ -334,14 +334,16 @@ def strategy(draw, tier):
             'fek': draw(st.sampled_from([None, None, {'boundary': 0}, {'boundary': 5}])), 'th': th, 'bk': bk, 'routing': None, 'return_samples': True}
     xlim = draw(st.one_of(st.none(), st.tuples(st.sampled_from(['random', 'random', 'on-boundary', 'on-boundary', 'tiny', 'full']),
                                                 st.integers(0, 100000), st.integers(0, 100000)).map(list)))
-    return {'base': base, 'xlim': xlim,
+    second = draw(st.booleans())
+    return {'base': base, 'xlim': xlim, 'probe': draw(st.integers(0, 1)),
             'target': draw(st.sampled_from(['plot_cyclepoints_df', 'plot_cyclepoints_array', 'plot_burst_detect_summary',
-                                            'plot_burst_detect_summary', 'Bycycle.plot', 'plot_burst_detect_param'])),
-            'switches': draw(st.lists(st.booleans(), min_size=5, max_size=5)), 'plot_only_result': draw(st.booleans()),
+                                            'plot_burst_detect_summary', 'plot_burst_detect_summary', 'Bycycle.plot', 'plot_burst_detect_param'])),
+            'switches': draw(st.lists(st.booleans(), min_size=5, max_size=5)),
+            'plot_only_result': draw(st.sampled_from([True, True, True, False])) if second else draw(st.booleans()),
             'interp': draw(st.booleans()), 'param': draw(st.sampled_from(['monotonicity', 'amp_consistency', 'period_consistency', 'amp_fraction', 'burst_fraction'])),
             'thresh': draw(st.sampled_from([0.0, 0.3, 0.5, 0.8, 1.0])), 'th_order': draw(st.sampled_from([0, 0, 1, 2])),
-            'second_drawing': draw(st.integers(0, 2)) == 0}
+            'second_drawing': second}
 
 
-PARTS = [Part('figures', check, strategy=strategy, budget={'quick': 500, 'thorough': 12000}, shards={'quick': 16, 'thorough': 16},
+PARTS = [Part('figures', check, strategy=strategy, budget={'quick': 640, 'thorough': 12000}, shards={'quick': 16, 'thorough': 16},
               time_cap={'quick': 200, 'thorough': 3000})]
